@@ -77,8 +77,11 @@ def encMatrix (d n : Nat) : Matrix :=
 /-- one output shard = Σ_c coef[c] · input[c], bytewise -/
 def combine (coef : Array Nat) (inputs : List Bytes) : Bytes :=
   let len := (inputs.headD []).length
+  let ins : List (Nat × Array UInt8) := List.zip coef.toList (inputs.map List.toArray)
+  -- multiplication tables of the coefficients (256 entries each) instead of a bit loop per byte
+  let tabs : List (Array Nat × Array UInt8) := ins.map fun (c, a) => ((Array.range 256).map (gfMul c), a)
   (List.range len).map fun i =>
-    UInt8.ofNat ((List.zip coef.toList inputs).foldl (fun acc (c, s) => acc ^^^ gfMul c (s.getD i 0).toNat) 0)
+    UInt8.ofNat (tabs.foldl (fun acc (t, a) => acc ^^^ t.getD (a.getD i 0).toNat 0) 0)
 
 def parity (d p : Nat) (data : List Bytes) : List Bytes :=
   let m := encMatrix d (d + p)
